@@ -138,6 +138,40 @@ def cases(tier, rng):
     out.append(("xfe-batch", "xbatchinv 1 2 3 0 0 0 5 0 0"))
     for a in G[::4]:
         out.append(("xfe-unary", "lift %d" % a))
+    # further public API: montyred itself, raw views, power_accumulator, Sum, cyclic groups, XFE helpers
+    for lo in (0, 1, 2**32 - 1, 2**32, 2**63, 2**64 - 2**32, 2**64 - 1):
+        for hi in (0, 1, 2**32 - 1, P - 1, P, 2**63, 2**64 - 1):
+            out.append(("montyred", "montyred %d" % (hi * 2**64 + lo)))
+    for _ in range(400 if not big else 20000):
+        out.append(("montyred", "montyred %d" % (rng.randrange(2**64) * 2**64 + rng.choice(G + [rng.randrange(2**64)]))))
+    for a in G:
+        out.append(("rawviews", "rawviews %d" % a))
+    for m in (0, 1, 3, 32):
+        for _ in range(8):
+            out.append(("poweracc", "poweracc %d %d %d %d %d" % (m, rng.choice(G), rng.choice(G), rng.choice(G), rng.choice(G))))
+    out.append(("sum", "sum"))
+    for L in (1, 2, 3, 17):
+        out.append(("sum", "sum " + " ".join(str(rng.choice(G)) for _ in range(L))))
+    for g, mx in ((1, "-"), (P - 1, "-"), (1, 5), (0, 3), (7, 10), (2**32, "-"), (281474976710656, "-"), (18446744069397807105, "-"),
+                  (7, 1), (7, 2), (P - 1, 1), (2, 200), (1753635133440165772, 1000)):
+        out.append(("cyclic", "cyclic %d %s" % (g, mx)))
+    out.append(("consts", "generator"))
+    out.append(("consts", "consts"))
+    out.append(("consts", "shah"))
+    for _ in range(6):
+        t = [rng.choice(xs) for _ in range(3 * rng.randrange(0, 5))]
+        out.append(("xfe-api", "xsum " + " ".join(map(str, t))))
+    for a in xs:
+        out.append(("xfe-api", "xnewconst %d" % a))
+    for L in (0, 1, 2, 3, 4):
+        out.append(("xfe-api", "xtryslice " + " ".join(str(rng.choice(xs)) for _ in range(L))))
+    for i in (0, 1, 2, 3, 2**32):
+        out.append(("xfe-api", "xincr %d %d %d %d" % (P - 1, 0, P - 1, i)))
+        out.append(("xfe-api", "xdecr %d %d %d %d" % (0, 1, 0, i)))
+    for nn in (0, 1, 2, 3, 4, 2**31, 2**32, 2**33):
+        out.append(("xfe-api", "xroot %d" % nn))
+    for t in ((0, 1, 0, 6), (1, 0, 0, 4), (P - 1, 0, 0, 5), (0, 0, 0, 3), (2, 3, 5, 7)):
+        out.append(("xfe-api", "xcyclic %d %d %d %d" % t))
     # random
     def r64():
         c = rng.random()
